@@ -9,7 +9,7 @@ Inductive imm := IVar (x : str) | IPrim (p : str) | ITag (idx : N).
 (** the lifted tree *)
 Inductive lexpr :=
 | LVar (x : str)
-| LPrim (p : str)
+| LPrim (p : str) (cls : N)                       (* cls: 0 not a number, 1 a non-zero numeric literal, 2 a zero numeric literal *)
 | LTag (idx : N)                                   (* nullary enum constructor *)
 | LConstr (c : str) (args : list lexpr)
 | LTuple (items : list lexpr)
@@ -56,17 +56,30 @@ Definition KL := list imm -> N -> aexpr * N.
 
 Definition ret : K := fun c n => (ARet c, n).
 
+(** operators as numbers: the name read in base 256 *)
+Definition op_add : N := 4285540.
+Definition op_sub : N := 5469538.
+Definition op_mul : N := 5076332.
+Definition op_div : N := 4483446.
+Definition arith (op : N) : bool := (op =? op_add) || (op =? op_sub) || (op =? op_mul) || (op =? op_div).
+Definition lit_class (e : lexpr) : N := match e with LPrim _ c => c | _ => 0 end.
+Definition name_rhs (op : N) (r : lexpr) : bool := (op =? op_div) && (lit_class r =? 2).
+Definition name_lhs (op : N) (l r : lexpr) : bool :=
+  arith op && negb (name_rhs op r) && negb (lit_class l =? 0) && negb (lit_class r =? 0).
+
 Fixpoint anf (fuel : nat) (e : lexpr) (n : N) (k : K) {struct fuel} : aexpr * N :=
   match fuel with
   | O => (ARet (CImm (IPrim [])), n)
   | S fuel =>
       (* anf_imm: atoms are passed on, anything else is named by a fresh temporary *)
+      let anf_named := fun (e : lexpr) (n : N) (k : KI) =>
+        let name := tname n in
+        anf fuel e (n + 1) (fun c n' => let (body, n'') := k (IVar name) n' in (ALet name c body, n'')) in
       let anf_imm := fun (e : lexpr) (n : N) (k : KI) =>
         match e with
         | LVar x => k (IVar x) n
-        | LPrim p => k (IPrim p) n
-        | _ => let name := tname n in
-               anf fuel e (n + 1) (fun c n' => let (body, n'') := k (IVar name) n' in (ALet name c body, n''))
+        | LPrim p _ => k (IPrim p) n
+        | _ => anf_named e n k
         end in
       let anf_list := fix go (es : list lexpr) (n : N) (k : KL) {struct es} : aexpr * N :=
         match es with
@@ -80,7 +93,7 @@ Fixpoint anf (fuel : nat) (e : lexpr) (n : N) (k : K) {struct fuel} : aexpr * N 
         end in
       match e with
       | LVar x => k (CImm (IVar x)) n
-      | LPrim p => k (CImm (IPrim p)) n
+      | LPrim p _ => k (CImm (IPrim p)) n
       | LTag i => k (CImm (ITag i)) n
       | LConstr c args => anf_list args n (fun a n' => k (CConstr c a) n')
       | LTuple items => anf_list items n (fun a n' => k (CTuple a) n')
@@ -103,7 +116,10 @@ Fixpoint anf (fuel : nat) (e : lexpr) (n : N) (k : K) {struct fuel} : aexpr * N 
             k (CMatch si aa da) n3)
       | LGet x c i => anf_imm x n (fun a n' => k (CGet a c i) n')
       | LUn op x => anf_imm x n (fun a n' => k (CUn op a) n')
-      | LBin op l r => anf_imm l n (fun li n1 => anf_imm r n1 (fun ri n2 => k (CBin op li ri) n2))
+      | LBin op l r =>
+          (* two numeric literals, or a zero literal divisor, would be a Go constant expression: one literal is named *)
+          (if name_lhs op l r then anf_named else anf_imm) l n (fun li n1 =>
+            (if name_rhs op r then anf_named else anf_imm) r n1 (fun ri n2 => k (CBin op li ri) n2))
       | LCall f args => anf_imm f n (fun fi n1 => anf_list args n1 (fun a n2 => k (CCall fi a) n2))
       | LToDyn tr x => anf_imm x n (fun a n' => k (CToDyn tr a) n')
       | LDynCall tr m recv args => anf_imm recv n (fun ri n1 => anf_list args n1 (fun a n2 => k (CDynCall tr m ri a) n2))
